@@ -8,7 +8,7 @@ git apply "$patch" || { echo "patch does not apply"; exit 9; }
 trap 'git -C /repo checkout -- . ' EXIT
 cd /verif
 for p in "$@"; do
-  out=$(VERIF_TIER=$tier ./vf check $p --tier $tier 2>&1)
+  out=$(VERIF_EVIDENCE_DIR=/tmp/seed_evidence VERIF_TIER=$tier ./vf check $p --tier $tier 2>&1)
   rc=$?
   echo "== $p rc=$rc $(echo "$out" | grep -c '^VIOLATION') violation line(s)"
   echo "$out" | grep -E "^VIOLATION|^  obligation|^INCONCLUSIVE|^\[" | head -8
